@@ -64,7 +64,7 @@ def discover(f, found=None):
             return None
         actual = cands[0]
         a, c = _ident(actual), _ident(canonical_path)
-        if a != c:
+        if a != c and "::" in actual:       # (a crate-root item keeps its name: rules reach it through facts.role_paths)
             ren[actual] = c
         return actual
 
@@ -96,7 +96,7 @@ def discover(f, found=None):
 
     # ---- Config: the buffer-size alignment helper = the non-public Config function returning usize that both parser
     # constructors call (method on &self or associated function of the configured size)
-    cfg = [p for p in fns if p.startswith("Config::") and p.count("::") == 1 and restricted(p) and sig(p).replace(" ", "").endswith("->usize")]
+    cfg = [p for p in fns if (p.startswith("Config::") and p.count("::") == 1 or p.count("::") == 0) and restricted(p) and sig(p).replace(" ", "").endswith("->usize")]
     ctor_callees = []
     for ctor in ("parser::request::Parser::new", "parser::stream::Parser::new"):
         cs_ = set()
